@@ -284,11 +284,73 @@ def translate(ctx: Any) -> Dict[str, Any]:
                 '    `any(self._send_eof.values())` ranges over the OTHER sources only) -/\n'
                 'def feedEofClearsReaderFirst : Bool := %s' % ('true' if cleared_first else 'false'))
 
+    # ---- drain: the test after the loop for a call that had to wait (stream.py), and what feeds it (channel.py) ----
+    fn = _find(cls.body, 'drain')
+    lost_ifs = [n for n in fn.body if isinstance(n, ast.If) and ast.unparse(n.test) == 'self._connection_lost']
+    if len(lost_ifs) != 1:
+        raise Untranslatable('drain: expected exactly one top-level `if self._connection_lost:`')
+    orelse = lost_ifs[0].orelse
+    tr = Tr({'blocked': ('blocked', 'bool'), 'self._chan': ('chanPresent', 'bool'),
+             'self._chan.is_closing()': ('closing', 'bool'),
+             'self._chan.was_write_discarded()': ('discarded', 'bool')})
+    if not orelse:
+        info['drain.fail-after-wait'] = '<none>'
+        fail_prop = 'False'
+    elif len(orelse) == 1 and isinstance(orelse[0], ast.If) and not orelse[0].orelse and \
+            len(orelse[0].body) == 1 and isinstance(orelse[0].body[0], ast.Raise) and \
+            'BrokenPipeError' in ast.unparse(orelse[0].body[0]):
+        info['drain.fail-after-wait'] = ast.unparse(orelse[0].test)
+        fail_prop = tr.prop(orelse[0].test)
+    else:
+        raise Untranslatable('drain: unexpected else branch of `if self._connection_lost:`')
+    # `blocked` must be: False before the loop, True inside the `while self._should_block_drain(...)` loop
+    loops = [n for n in fn.body if isinstance(n, ast.While) and '_should_block_drain' in ast.unparse(n.test)]
+    if len(loops) != 1:
+        raise Untranslatable('drain: expected exactly one `while self._should_block_drain(...)`')
+
+    def _assigns(stmts: List[ast.stmt], value: bool) -> bool:
+        return any(isinstance(x, ast.Assign) and len(x.targets) == 1 and ast.unparse(x.targets[0]) == 'blocked' and
+                   isinstance(x.value, ast.Constant) and x.value.value is value for x in stmts)
+    flag_ok = _assigns(fn.body[:fn.body.index(loops[0])], False) and _assigns(loops[0].body, True)
+    info['drain.blocked-flag'] = flag_ok
+    defs.append('/-- `elif %s: raise BrokenPipeError()` after the loop of SSHStreamSession.drain (`False`: no such branch) -/\n'
+                'def drainFailAfterWaitCode (blocked chanPresent closing discarded : Bool) : Prop :=\n  %s'
+                % (info['drain.fail-after-wait'], fail_prop))
+    defs.append('/-- in drain `blocked` is False before the loop and set to True in the body of\n'
+                '    `while self._should_block_drain(datatype):` -/\n'
+                'def drainBlockedFlagTracksWaiting : Bool := %s' % ('true' if flag_ok else 'false'))
+
+    cpath = os.path.join(vlib.REPO, 'asyncssh', 'channel.py')
+    ctree = ast.parse(open(cpath).read())
+    ccls = _find(ctree.body, 'SSHChannel')
+    fn = _find(ccls.body, '_process_close')
+    calls = [ast.unparse(x.value.func) for x in fn.body if isinstance(x, ast.Expr) and isinstance(x.value, ast.Call)]
+    resumes = 'self._close_send' in calls and 'self._pause_resume_writing' in calls and \
+        calls.index('self._close_send') < calls.index('self._pause_resume_writing')
+    info['_process_close.resumes-paused-session'] = resumes
+    defs.append('/-- SSHChannel._process_close calls `self._pause_resume_writing()` after `self._close_send()`: a session\n'
+                '    paused for writing is resumed when the peer closes the channel (its unsent data is gone) -/\n'
+                'def processCloseResumesWriting : Bool := %s' % ('true' if resumes else 'false'))
+    fn = _find(ccls.body, '_close_send')
+    cleared_at = next((i for i, x in enumerate(fn.body) if isinstance(x, ast.Assign) and
+                       ast.unparse(x.targets[0]) == 'self._send_buf_len'), None)
+    rec_at = next((i for i, x in enumerate(fn.body) if isinstance(x, ast.If) and
+                   ast.unparse(x.test) in ('self._send_buf_len', 'self._send_buf') and
+                   any(ast.unparse(y) == 'self._send_discarded = True' for y in x.body)), None)
+    getter = [n for n in ccls.body if isinstance(n, ast.FunctionDef) and n.name == 'was_write_discarded']
+    getter_ok = bool(getter) and any(isinstance(x, ast.Return) and x.value is not None and
+                                     ast.unparse(x.value) == 'self._send_discarded' for x in getter[0].body)
+    records = cleared_at is not None and rec_at is not None and rec_at < cleared_at and getter_ok
+    info['_close_send.records-discarded-data'] = records
+    defs.append('/-- SSHChannel._close_send sets `_send_discarded` when it throws a non-empty send buffer away (before the\n'
+                '    buffer is cleared) and `was_write_discarded()` returns that flag -/\n'
+                'def closeSendRecordsDiscard : Bool := %s' % ('true' if records else 'false'))
+
     text = ('/- GENERATED by harness/props/_c19_translate.py from %s — do not edit.\n'
             '   Expressions of asyncssh/stream.py and process.py translated from the Python AST; Props/C19.lean proves that the model\'s\n'
             '   hand-written definitions agree with them. -/\n'
             'namespace AsyncsshModel.Gen.C19\n\n%s\n\nend AsyncsshModel.Gen.C19\n'
-            % ('asyncssh/stream.py and asyncssh/process.py', '\n\n'.join(defs)))
+            % ('asyncssh/stream.py, asyncssh/process.py and asyncssh/channel.py', '\n\n'.join(defs)))
     changed = vlib.write_if_changed(os.path.join(vlib.LEAN_DIR, 'AsyncsshModel', 'Gen', 'C19.lean'), text)
     info['regenerated'] = changed
     return info
